@@ -51,6 +51,22 @@ def handle (line : String) : String :=
     match limit.toNat?, fuel.toNat?, (if pages == "-" then some [] else (pages.splitOn ";").mapM parsePage), parseNats empties with
     | some l, some f, some ps, some es => showOut (runS (scriptServer ps) f 0 { Iter.init l with emptyIds := es })
     | _, _, _, _ => "bad-op"
+  | ["off", which, limit, cap, fuel, kinds, n] =>
+    -- offset-based iterators: items 1..n in server order
+    match limit.toNat?, cap.toNat?, fuel.toNat?, parseKinds kinds, n.toNat? with
+    | some l, some cap, some f, some ks, some n =>
+      let rules : Option (Nat × Nat) :=
+        if which == "blocked" then some (Facts.C39.blockedFull, Facts.C39.blockedSlice)
+        else if which == "photos" then some (Facts.C39.photosFull, Facts.C39.photosSlice)
+        else if which == "participants" then some (0, Facts.C39.participantsRule)
+        else if which == "featured" then some (0, Facts.C39.featuredRule) else none
+      match rules with
+      | none => "bad-op"
+      | some (cf, cs) =>
+        let o := orunS (offServer ((List.range n).map (· + 1)) ks cf cs cap) f 0 (OIter.init l)
+        let rs := o.reqs.map (fun (a, b) => s!"{a}:{b}")
+        s!"y={showNats o.yields} r={if rs.isEmpty then "-" else ",".intercalate rs} done={if o.done then 1 else 0}"
+    | _, _, _, _, _ => "bad-op"
   | ["dlg", limit, cap, fuel, kinds, ds] =>
     match limit.toNat?, cap.toNat?, fuel.toNat?, parseKinds kinds, parseDlgs ds with
     | some l, some cap, some f, some ks, some d => showDOut (drun d f ks cap (DIter.init l))
